@@ -51,6 +51,14 @@ fn bbox_of<P: Pt>(b: &GenericBBox<P>) -> BBox {
     [mn[0], mn[1], mx[0], mx[1], mn[2], mx[2], mn[3], mx[3]]
 }
 
+fn bbox_xy_ranges<P: Pt + shapefile::record::traits::HasXY>(b: &GenericBBox<P>, full: BBox) -> Result<(), String> {
+    let (x, y) = (b.x_range(), b.y_range());
+    if F::of(x[0]) != full[0] || F::of(x[1]) != full[2] || F::of(y[0]) != full[1] || F::of(y[1]) != full[3] {
+        return Err(format!("bbox().x_range() / y_range() = {:?} / {:?}, the box's corner points give {:?}", x, y, &full[..4]));
+    }
+    Ok(())
+}
+
 pub fn ty_of(t: ShapeType) -> Ty {
     Ty::from_code(t as i32).expect("library ShapeType has a table code")
 }
@@ -77,6 +85,15 @@ pub trait Kind: Sized + Clone + EsriShape + ReadableShape + Into<Shape> + TryFro
     fn build(g: &Geom, c: Ctor) -> Self;
     /// Read back through public accessors.
     fn view(&self) -> Geom;
+    /// The same value read through the OTHER public accessors (indexed getters, `Index`, `into_inner`, `AsRef`,
+    /// `From<..> for Vec<..>`). Err = two accessors disagree.
+    fn alt_view(&self) -> Result<Geom, String> {
+        Ok(self.view())
+    }
+    /// The box's range getters (`bbox().x_range()` ...) against the box's corner points (C05).
+    fn box_getters_agree(&self) -> Result<(), String> {
+        Ok(())
+    }
 }
 
 macro_rules! point_kind {
@@ -128,6 +145,39 @@ macro_rules! multipoint_kind {
                 }
                 .canon()
             }
+            fn box_getters_agree(&self) -> Result<(), String> {
+                bbox_xy_ranges(self.bbox(), bbox_of(self.bbox()))
+            }
+            fn alt_view(&self) -> Result<Geom, String> {
+                let n = self.points().len();
+                let mut by_getter: Vec<$P> = Vec::new();
+                let mut i = 0;
+                while let Some(p) = self.point(i) {
+                    by_getter.push(*p);
+                    i += 1;
+                    if i > n + 1 {
+                        return Err(format!("point({}) is Some with {} points", i - 1, n));
+                    }
+                }
+                if i != n {
+                    return Err(format!("point(i) yields {} points, points() has {}", i, n));
+                }
+                let by_index: Vec<$P> = (0..n).map(|i| self[i]).collect();
+                let inner: Vec<$P> = self.clone().into_inner();
+                let as_vec: Vec<$P> = self.clone().into();
+                let a = rd(&by_getter);
+                if a != rd(&by_index) || a != rd(&inner) || a != rd(&as_vec) {
+                    return Err("point(i), self[i], into_inner() and Vec::from(multipoint) disagree".to_string());
+                }
+                let bbox = bbox_of(self.bbox());
+                Ok(Geom {
+                    ty: $ty,
+                    parts: vec![Part { kind: 0, pts: a }],
+                    bbox,
+                    m_present: $ty.carries_m(),
+                }
+                .canon())
+            }
         }
     };
 }
@@ -161,6 +211,33 @@ macro_rules! polyline_kind {
                     m_present: $ty.carries_m(),
                 }
                 .canon()
+            }
+            fn box_getters_agree(&self) -> Result<(), String> {
+                bbox_xy_ranges(self.bbox(), bbox_of(self.bbox()))
+            }
+            fn alt_view(&self) -> Result<Geom, String> {
+                let n = self.parts().len();
+                let mut parts: Vec<Part> = Vec::new();
+                let mut i = 0;
+                while let Some(p) = self.part(i) {
+                    parts.push(Part { kind: 0, pts: rd(p) });
+                    i += 1;
+                    if i > n + 1 {
+                        return Err(format!("part({}) is Some with {} parts", i - 1, n));
+                    }
+                }
+                let inner: Vec<Part> = self.clone().into_inner().iter().map(|p| Part { kind: 0, pts: rd(p) }).collect();
+                if parts != inner {
+                    return Err("part(i) and into_inner() disagree".to_string());
+                }
+                let bbox = bbox_of(self.bbox());
+                Ok(Geom {
+                    ty: $ty,
+                    parts,
+                    bbox,
+                    m_present: $ty.carries_m(),
+                }
+                .canon())
             }
         }
     };
@@ -211,6 +288,44 @@ macro_rules! polygon_kind {
                     m_present: $ty.carries_m(),
                 }
                 .canon()
+            }
+            fn box_getters_agree(&self) -> Result<(), String> {
+                bbox_xy_ranges(self.bbox(), bbox_of(self.bbox()))
+            }
+            fn alt_view(&self) -> Result<Geom, String> {
+                let n = self.rings().len();
+                let mut parts: Vec<Part> = Vec::new();
+                let mut i = 0;
+                while let Some(r) = self.ring(i) {
+                    let kind = match r {
+                        PolygonRing::Outer(_) => OUTER,
+                        PolygonRing::Inner(_) => INNER,
+                    };
+                    let via_ref: &[$P] = r.as_ref();
+                    let via_index: Vec<$P> = (0..r.len()).map(|k| r[k]).collect();
+                    let inner: Vec<$P> = r.clone().into_inner();
+                    let a = rd(via_ref);
+                    if a != rd(&via_index) || a != rd(&inner) || r.is_empty() != a.is_empty() || r.len() != a.len() {
+                        return Err(format!("ring {}: as_ref(), ring[k], into_inner(), len() / is_empty() disagree", i));
+                    }
+                    parts.push(Part { kind, pts: a });
+                    i += 1;
+                    if i > n + 1 {
+                        return Err(format!("ring({}) is Some with {} rings", i - 1, n));
+                    }
+                }
+                let inner: Vec<Part> = self.clone().into_inner().iter().map(part_of_ring).collect();
+                if parts != inner {
+                    return Err("ring(i) and into_inner() disagree".to_string());
+                }
+                let bbox = bbox_of(self.bbox());
+                Ok(Geom {
+                    ty: $ty,
+                    parts,
+                    bbox,
+                    m_present: $ty.carries_m(),
+                }
+                .canon())
             }
         }
     };
@@ -263,6 +378,45 @@ impl Kind for Multipatch {
             m_present: true,
         }
         .canon()
+    }
+    fn box_getters_agree(&self) -> Result<(), String> {
+        let bbox = bbox_of(self.bbox());
+        bbox_xy_ranges(self.bbox(), bbox)?;
+        let (z, m) = (self.bbox().z_range(), self.bbox().m_range());
+        if F::of(z[0]) != bbox[4] || F::of(z[1]) != bbox[5] || F::of(m[0]) != bbox[6] || F::of(m[1]) != bbox[7] {
+            return Err("bbox().z_range() / m_range() differ from the box's corner points".to_string());
+        }
+        Ok(())
+    }
+    fn alt_view(&self) -> Result<Geom, String> {
+        let n = self.patches().len();
+        let mut parts: Vec<Part> = Vec::new();
+        let mut i = 0;
+        while let Some(p) = self.patch(i) {
+            let mut part = part_of_patch(p);
+            let via_ref: &[PointZ] = p.as_ref();
+            if rd(via_ref) != part.pts {
+                return Err(format!("patch {}: as_ref() and points() disagree", i));
+            }
+            part.pts = rd(via_ref);
+            parts.push(part);
+            i += 1;
+            if i > n + 1 {
+                return Err(format!("patch({}) is Some with {} patches", i - 1, n));
+            }
+        }
+        let inner: Vec<Part> = self.clone().into_inner().iter().map(part_of_patch).collect();
+        if parts != inner {
+            return Err("patch(i) and into_inner() disagree".to_string());
+        }
+        let bbox = bbox_of(self.bbox());
+        Ok(Geom {
+            ty: Ty::Multipatch,
+            parts,
+            bbox,
+            m_present: true,
+        }
+        .canon())
     }
 }
 
